@@ -52,6 +52,7 @@ def _recorders(I, seen):
 
 def task_save_dispatch(I):
     import segno
+    I.replay_spec = dict(fn='replay_routes', kind='svg')      # behavioural: every route gives the same bytes
     seen = []
     w = _recorders(I, seen)
     f = I.get_function('segno.writers', 'save')
@@ -139,11 +140,12 @@ def task_save_dispatch(I):
             allargs[names[i]] = v
         ok = allargs.get('matrix') is m and allargs.get('matrix_size') is sz and allargs.get('out') is out and allargs.get('kind') is kind and \
             all(allargs.get(k) is opts[k] for k in opts)
-    I.ground('C12.QRCode_save.forwards_matrix_size_out_kind_and_options', ok, witness=repr(calls)[:200])
+    I.ground('C12.QRCode_save.forwards_matrix_size_out_kind_and_options', ok, witness=repr(calls)[:200], kind='sufficient')
     del I.summaries['segno.writers:save']
 
 
 def task_uri_forwarding(I):
+    I.replay_spec = dict(fn='replay_routes', kind='svg')
     import segno
     from pyvc import extract
     w = extract.get_module('segno.writers').module
@@ -170,7 +172,7 @@ def task_uri_forwarding(I):
     I.explore(lambda I: I.call_function(f, (m, sz), dict(toks)), lambda I, k, v: res.update(kind=k, val=v))
     call = [c for c in seen if c[0] == 'write_svg']
     ok = len(call) == 1 and call[0][1][:2] == (m, sz)
-    I.ground('C12.as_svg_data_uri.calls_write_svg_once_on_the_matrix', ok, witness=repr(res)[:120])
+    I.ground('C12.as_svg_data_uri.calls_write_svg_once_on_the_matrix', ok, witness=repr(res)[:120], kind='sufficient')
     if ok:
         kw = call[0][2]
         for n in toks:
@@ -183,10 +185,10 @@ def task_uri_forwarding(I):
     I.explore(lambda I: I.call_function(f, (m, sz), dict(toks)), lambda I, k, v: res.update(kind=k, val=v))
     call = [c for c in seen if c[0] == 'write_png']
     ok = len(call) == 1 and call[0][1][:2] == (m, sz)
-    I.ground('C12.as_png_data_uri.calls_write_png_once_on_the_matrix', ok, witness=repr(res)[:120])
+    I.ground('C12.as_png_data_uri.calls_write_png_once_on_the_matrix', ok, witness=repr(res)[:120], kind='sufficient')
     if ok:
         for n in toks:
-            I.ground('C12.as_png_data_uri.forwards_%s' % n, call[0][2].get(n) == toks[n], witness=dict(option=n, got=repr(call[0][2].get(n))))
+            I.ground('C12.as_png_data_uri.forwards_%s' % n, call[0][2].get(n) == toks[n], witness=dict(option=n, got=repr(call[0][2].get(n))), kind='sufficient')
     # QRCode.svg_inline / svg_data_uri / png_data_uri
     calls = []
 
@@ -206,7 +208,7 @@ def task_uri_forwarding(I):
         res = {}
         I.explore(lambda I: I.call_function(g, (q,), dict(opts)), lambda I, k, v: res.update(kind=k, val=v))
         ok = len(calls) == 1 and calls[0][0] == want and calls[0][1][:2] == (m, sz) and all(calls[0][2].get(k) == v for k, v in opts.items())
-        I.ground('C12.QRCode_%s.forwards_matrix_and_options' % meth, ok, witness=repr(calls)[:200])
+        I.ground('C12.QRCode_%s.forwards_matrix_and_options' % meth, ok, witness=repr(calls)[:200], kind='sufficient')
     # svg_inline == SVG without XML declaration, namespace and newline, everything else forwarded
     saves = []
 
@@ -222,7 +224,7 @@ def task_uri_forwarding(I):
     if ok:
         kw = saves[0][1]
         ok = kw.get('kind') == 'svg' and kw.get('xmldecl') is False and kw.get('svgns') is False and kw.get('nl') is False and all(kw.get(k) == v for k, v in opts.items())
-    I.ground('C12.svg_inline.is_svg_without_xmldecl_namespace_newline_options_forwarded', ok, witness=repr(saves)[:200])
+    I.ground('C12.svg_inline.is_svg_without_xmldecl_namespace_newline_options_forwarded', ok, witness=repr(saves)[:200], kind='sufficient')
     del I.summaries['segno:QRCode.save']
 
 
